@@ -73,10 +73,13 @@ theorem huffman_encoding_roundtrip (alphabet : List Int) (lens : List Nat) (L : 
 example : HuffOK [65, 66, 67, 68, 69, 70] [1, 3, 3, 3, 4, 4] 4 :=
   ⟨rfl, by decide, by decide, by decide, by decide, by decide⟩
 
-/-- a complete code with a 31-bit word: `code += 1` after the last symbol leaves `i32` — a panic under
-overflow checks (the reason for `HuffOK.small`) -/
-example : buildCodeBook ((List.range 32).map Int.ofNat) ((List.range 31).map (· + 1) ++ [31]) = .error .panic := by
-  rfl
+/-- a complete code with a 31-bit word: `code += 1` after the last symbol leaves `i32` (the reason for
+`HuffOK.small`) — a panic under overflow checks before the fix `cram-encoding-decoders-panic`, a
+wrapping addition after it: the code book is built -/
+example : (match buildCodeBook ((List.range 32).map Int.ofNat) ((List.range 31).map (· + 1) ++ [31]) with
+    | .ok book => book.length == 32
+    | .error _ => false) = true := by
+  decide
 
 /-! ## Beta and Gamma -/
 
